@@ -110,7 +110,7 @@ type layout struct {
 	length                                 int
 	docCode, issuer, name_                 span
 	docNo, nationality, dob, sex, expiry   span
-	docNoCD, dobCD, expiryCD, optCD, compo int // optCD = -1 when the layout has none
+	docNoCD, dobCD, expiryCD, optCD, compo int  // optCD = -1 when the layout has none
 	opt1, opt2                             span // opt2.lo = -1 when absent
 	composite                              []span
 	extended                               bool // long document numbers continue in opt1
@@ -649,6 +649,24 @@ func MRZInformationFromMRZ(m string) (string, error) {
 		}
 	}
 	return MRZInformation(p.DocNo, p.DOB, p.Expiry), nil
+}
+
+// EncodeDG1 wraps an MRZ into the LDS data group 1 (9303-10): template 61
+// holding data object 5F1F, definite BER lengths in their shortest form.
+func EncodeDG1(m string) []byte {
+	tl := func(tag []byte, v []byte) []byte {
+		out := append([]byte{}, tag...)
+		switch n := len(v); {
+		case n < 0x80:
+			out = append(out, byte(n))
+		case n < 0x100:
+			out = append(out, 0x81, byte(n))
+		default:
+			out = append(out, 0x82, byte(n>>8), byte(n))
+		}
+		return append(out, v...)
+	}
+	return tl([]byte{0x61}, tl([]byte{0x5f, 0x1f}, []byte(m)))
 }
 
 // K is SHA-1 of the MRZ information: the shared secret of PACE with the MRZ
